@@ -18,6 +18,7 @@ const (
 	verifLoopEvent     // the event loop has received a peer / stream / wire event and not yet handled it
 	verifValidateTake  // a validation worker is about to take the next request from the validation queue
 	verifInboundExit   // the handler of an inbound stream has stopped reading and has not yet reported the stream closed
+	verifConnectTake   // a connector goroutine is about to take the next peer-exchange / direct-peer dial request
 )
 
 func verifYield(int) {}
@@ -33,3 +34,5 @@ func verifYieldMsg(*Message, int) {}
 func verifYieldBatch(*MessageBatch, int) {}
 
 func verifYieldVal(*validation, int) {}
+
+func verifYieldConn(*GossipSubRouter, int) {}
